@@ -236,3 +236,35 @@ for _k in CLAIMS:
 for _k, (_t, _x) in _ADD.items():
     CLAIMS[_k]['technique'] += _t
     CLAIMS[_k]['text'] += _x
+
+# ---------------------------------------------------------------- additions after round 3
+_ADD3 = {
+ 'C01': ('; polynomial-domain abstract interpretation of the supernodal update kernels (R12); sp_preorder oracle',
+         ' R12: a forward flow analysis over integer polynomials (one pass per segment-size class and blocking branch, counting loops summarised by their affine '
+         'induction variables, obligations decided as polynomial identities) shows for ?column_bmod and ?panel_bmod (real types; the complex ones are tied to them by '
+         'R9c/R9) that every access to the supernode block is the entry the triangular solve / block product needs, that forward substitution uses only final '
+         'values, that solved entries return to their rows and that the rows below receive the whole segment. The sp_preorder oracle (post-order whenever '
+         'SymmetricMode = NO, for every ColPerm) runs here as well.'),
+ 'C02': ('; R12 kernel index analysis; option-controlled choices evaluated over all valuations',
+         ' R12 as in C01. The choice heap_relax_snode / relax_snode and the definition of usepr are evaluated under every valuation of (Fact, SymmetricMode, ColPerm).'),
+ 'C03': ('; option-controlled choices', ' Heap relaxation is used exactly when SymmetricMode = YES (evaluated over all option valuations).'),
+ 'C05': ('; phases group and ?gstrs dispatch oracle', ' Which phases run per Fact value (get_perm_c only for DOFACT) and the Trans dispatch of ?gstrs are decided here as well.'),
+ 'C06': ('; R5, structure of ?expand, option-controlled choices', ' R5 (incl. the entry count handed to ?LUMemXpand is the append cursor), the structure rules of ?expand and the usepr rule run here as well.'),
+ 'C07': ('; growth progress, append cursor, extent-before-booking', ' A successful ordinary expansion has grown the array; the count carried over is the append cursor; the block to shift is measured before the growth is booked.'),
+ 'C08': ('; growth progress (hang), retry only without keep_prev, rollback mark after the kept arrays',
+         ' Every path from a reduced request to a successful return of ?expand tests new_len against *prev_len (the missing test was a hang on the pinned tree, repaired); '
+         'retry loops run only for ordinary requests; the rollback mark of ?LUMemInit is taken after the five kept arrays.'),
+ 'C09': ('; output-only arguments do not steer the computation', ' usepr only for SamePattern_SameRowPerm; rcond is consulted only when it was computed (R3 cond group).'),
+ 'C10': ('; sp_preorder oracle split on ColPerm', ' The post-ordering may not depend on how perm_c was obtained.'),
+ 'C11': ('; boundary representatives', ' The ?laqgs oracle includes amax exactly equal to SMALL and LARGE.'),
+ 'C12': ('; supernode sweep rule', ' Every sweep of sp_?trsv covers supernodes 0..nsuper, never leaves an iteration early, and the block solve is guarded by the column count only.'),
+ 'C13': ('; accumulator re-initialisation', ' The BERR denominator is re-initialised inside the refinement loop before the products are added.'),
+ 'C14': ('; supernode sweep, beta = 0 assignment', ' Sweep rule as in C12; sp_?gemv assigns zero (does not multiply) for beta = 0 in both stride forms.'),
+ 'C15': ('; append cursor (R5)', ' The count handed to ?LUMemXpand by ilu_?copy_to_ucol is the append cursor.'),
+ 'C16': ('; terminator dominance, scatter alignment', ' A fixed-width header field is converted only after a dominating terminator store; index and value of a triplet are moved together.'),
+ 'C19': ('; path use-after-release; relaxed supernode width', ' A path released by SUPERLU_FREE(p->q) is not used again in the same statement list; relaxed supernodes have at most relax columns (the histogram extent).'),
+ 'C20': ('; path use-after-release', ' In the bridge a handle field is not used after the statement that released it.'),
+}
+for _k, (_t, _x) in _ADD3.items():
+    CLAIMS[_k]['technique'] += _t
+    CLAIMS[_k]['text'] += _x
